@@ -439,6 +439,8 @@ func c14GenQuiet(r *vrng, id int) *c14Case {
 			o.TTL = pick(r, c14QuietTTLs)
 			if r.chance(65) {
 				o.Old = curIdx
+			} else if r.chance(25) {
+				o.Old = -1 // "only if absent", whether or not the key is present
 			} else {
 				o.Old = pick(r, vals)
 			}
@@ -449,6 +451,8 @@ func c14GenQuiet(r *vrng, id int) *c14Case {
 			o.K = "casnt"
 			if r.chance(65) {
 				o.Old = curIdx
+			} else if r.chance(25) {
+				o.Old = -1
 			} else {
 				o.Old = pick(r, vals)
 			}
@@ -476,7 +480,7 @@ func c14GenQuiet(r *vrng, id int) *c14Case {
 
 func c14Grid() time.Duration {
 	if s := os.Getenv("VERIF_C14_GRID_MS"); s != "" {
-		if n, err := strconv.Atoi(s); err == nil && n >= 20 {
+		if n, err := strconv.Atoi(s); err == nil && n >= 60 {
 			return time.Duration(n) * time.Millisecond
 		}
 	}
